@@ -21,7 +21,7 @@ Holds(c, r) ==
                                        Listed(cs.fields[i]) => o.field_answers[i] = Ans(DocOf(cs.fields[i].doc), TRUE)
          (* fields of embedded (exported, covered) structs are answered by delegation *)
          [] c = "C16_Delegation" -> ~live \/ \A i \in 1..Len(cs.fields) :
-                                       cs.fields[i].embedded # "no" => o.embedded_answers[i] = Ans(DocOf(cs.fields[i].inner_doc), TRUE)
+                                       cs.fields[i].embedded \in {"value", "pointer"} => o.embedded_answers[i] = Ans(DocOf(cs.fields[i].inner_doc), TRUE)
          (* any other name: unknown names, unexported fields, fields of anonymous / empty struct type *)
          [] c = "C16_OtherNames" -> ~live \/ ( /\ o.unknown_answer = None
                                                /\ \A i \in 1..Len(cs.fields) :
